@@ -1,3 +1,5 @@
+import PydapModel.Generated.SliceSrc
 import PydapModel.Generated.Tables
+import PydapModel.MiniPy
 import PydapModel.Sexp
 import PydapModel.Slice
